@@ -120,34 +120,42 @@ theorem decode_stapa (d : Dec) (p : Pkt) (b : List Bytes)
     | x :: y :: r, _ => simp [removeAnnexB, afterWhole, Dec.resetFragments]
   simp only [decode, h1]
 
+/-- state after the start fragment of a NALU with header byte `h` -/
+def fuStartState (d : Dec) (seq : UInt16) (h : UInt8) (chunk : Bytes) : Dec :=
+  { d with fragmentsSize := chunk.length + 1, fragments := [[h], chunk],
+           fragmentNextSeqNum := seq + 1, firstPacketReceived := true }
+
+/-- state after a middle fragment -/
+def fuMidState (d : Dec) (chunk : Bytes) : Dec :=
+  { d with fragmentsSize := d.fragmentsSize + chunk.length, fragments := d.fragments ++ [chunk],
+           fragmentNextSeqNum := d.fragmentNextSeqNum + 1 }
+
+/-- state after the end fragment, before the frame-buffer stage -/
+def fuEndState (d : Dec) : Dec :=
+  { d with fragmentsSize := 0, fragments := [], fragmentNextSeqNum := d.fragmentNextSeqNum + 1 }
+
 /-- the first packet of a fragmented NALU (start bit, no end bit), from ANY state -/
 theorem decode_fu_start (d : Dec) (p : Pkt) (h : UInt8) (chunk : Bytes) (hz : h &&& 0x80 = 0)
     (hp : p.payload = fuHdr h true false ++ chunk) :
-    decode d p = ({ d with fragmentsSize := chunk.length + 1, fragments := [[h], chunk],
-                           fragmentNextSeqNum := p.seq + 1, firstPacketReceived := true }, .more) := by
+    decode d p = (fuStartState d p.seq h chunk, .more) := by
   obtain ⟨b0, b1, hh, r1, r2, r3, r4⟩ := fuHdr_read h true false
   rw [hh] at hp
-  have h0 : decodeNALUs0 d p = ({ d with fragmentsSize := chunk.length + 1, fragments := [[h], chunk],
-      fragmentNextSeqNum := p.seq + 1, firstPacketReceived := true }, .more) := by
+  have h0 : decodeNALUs0 d p = (fuStartState d p.seq h chunk, .more) := by
     simp only [decodeNALUs0, hp, List.cons_append, List.nil_append, r1, decodeFUA, r2, fuaStart, r3]
-    simp [r4 hz]
+    simp [r4 hz, fuStartState]
   simp only [decode, decodeNALUs, h0]
 
 /-- a middle packet of a fragmented NALU -/
 theorem decode_fu_mid (d : Dec) (p : Pkt) (h : UInt8) (chunk : Bytes)
     (hp : p.payload = fuHdr h false false ++ chunk) (hs : d.fragmentsSize ≠ 0)
     (hq : p.seq = d.fragmentNextSeqNum) (hle : d.fragmentsSize + chunk.length ≤ maxAU) :
-    decode d p = ({ d with fragmentsSize := d.fragmentsSize + chunk.length,
-                           fragments := d.fragments ++ [chunk],
-                           fragmentNextSeqNum := d.fragmentNextSeqNum + 1 }, .more) := by
+    decode d p = (fuMidState d chunk, .more) := by
   obtain ⟨b0, b1, hh, r1, r2, r3, _⟩ := fuHdr_read h false false
   rw [hh] at hp
   have hgt : ¬ (d.fragmentsSize + chunk.length > maxAU) := by omega
-  have h0 : decodeNALUs0 d p = ({ d with fragmentsSize := d.fragmentsSize + chunk.length,
-      fragments := d.fragments ++ [chunk],
-      fragmentNextSeqNum := d.fragmentNextSeqNum + 1 }, .more) := by
+  have h0 : decodeNALUs0 d p = (fuMidState d chunk, .more) := by
     simp only [decodeNALUs0, hp, List.cons_append, List.nil_append, r1, decodeFUA, r2, fuaCont, r3, hs, hq]
-    simp [hgt]
+    simp [hgt, fuMidState]
   simp only [decode, decodeNALUs, h0]
 
 /-- the last packet of a fragmented NALU: the reassembled NALU goes to the frame buffer -/
@@ -156,9 +164,7 @@ theorem decode_fu_end (d : Dec) (p : Pkt) (h : UInt8) (chunk : Bytes)
     (hq : p.seq = d.fragmentNextSeqNum) (hle : d.fragmentsSize + chunk.length ≤ maxAU)
     (hsz : d.fragmentsSize = totalLen d.fragments) (ha : d.annexBMode = false)
     (hsc : findSC (d.fragments.flatten ++ chunk) = none) :
-    decode d p = addNALUs { d with fragmentsSize := 0, fragments := [],
-                                   fragmentNextSeqNum := d.fragmentNextSeqNum + 1 }
-                   [d.fragments.flatten ++ chunk] p.ts p.marker := by
+    decode d p = addNALUs (fuEndState d) [d.fragments.flatten ++ chunk] p.ts p.marker := by
   obtain ⟨b0, b1, hh, r1, r2, r3, _⟩ := fuHdr_read h false true
   rw [hh] at hp
   have hgt : ¬ (d.fragmentsSize + chunk.length > maxAU) := by omega
@@ -171,14 +177,323 @@ theorem decode_fu_end (d : Dec) (p : Pkt) (h : UInt8) (chunk : Bytes)
     have := congrArg List.length h0
     simp only [List.length_append, flatten_length, List.length_nil] at this
     omega
-  have h0 : decodeNALUs0 d p = ({ d with fragmentsSize := 0, fragments := [],
-      fragmentNextSeqNum := d.fragmentNextSeqNum + 1 }, .nalus [d.fragments.flatten ++ chunk]) := by
+  have h0 : decodeNALUs0 d p = (fuEndState d, .nalus [d.fragments.flatten ++ chunk]) := by
     simp only [decodeNALUs0, hp, List.cons_append, List.nil_append, r1, decodeFUA, r2, fuaCont, r3, hs, hq]
-    simp [hgt, hjoin, splitNALUs_noSC _ hne hsc, Dec.resetFragments]
-  have h1 : decodeNALUs d p = ({ d with fragmentsSize := 0, fragments := [],
-      fragmentNextSeqNum := d.fragmentNextSeqNum + 1 }, .nalus [d.fragments.flatten ++ chunk]) := by
+    simp [hgt, hjoin, splitNALUs_noSC _ hne hsc, Dec.resetFragments, fuEndState]
+  have h1 : decodeNALUs d p = (fuEndState d, .nalus [d.fragments.flatten ++ chunk]) := by
     simp only [decodeNALUs, h0, finishNALUs, removeAnnexB, noSC_noSC4 _ hsc]
-    simp [ha]
+    simp [ha, fuEndState]
   simp only [decode, h1]
+
+/-! ### runs of packets -/
+
+theorem runDec_nil (d : Dec) : runDec d [] = (d, []) := rfl
+
+theorem runDec_cons (d : Dec) (p : Pkt) (ps : List Pkt) :
+    runDec d (p :: ps) = ((runDec (decode d p).1 ps).1, (decode d p).2 :: (runDec (decode d p).1 ps).2) := rfl
+
+theorem runDec_append (d : Dec) (ps qs : List Pkt) :
+    runDec d (ps ++ qs) = ((runDec (runDec d ps).1 qs).1, (runDec d ps).2 ++ (runDec (runDec d ps).1 qs).2) := by
+  induction ps generalizing d with
+  | nil => simp [runDec_nil]
+  | cons p ps ih => simp [runDec_cons, ih]
+
+theorem stamp_number_cons (c : EncCfg) (ts : UInt32) (sq : UInt16) (m : Bool) (pl : Bytes) (rest : List Item) :
+    stamp ts (number c sq ((m, pl) :: rest)) =
+      { pt := c.pt, seq := sq, ts := ts, ssrc := c.ssrc, marker := m, payload := pl } ::
+        stamp ts (number c (sq + 1) rest) := by
+  simp [stamp, number]
+
+theorem stamp_number_nil (c : EncCfg) (ts : UInt32) (sq : UInt16) : stamp ts (number c sq []) = [] := rfl
+
+theorem stamp_append (ts : UInt32) (a b : List Pkt) : stamp ts (a ++ b) = stamp ts a ++ stamp ts b := by
+  simp [stamp]
+
+@[simp] theorem stamp_length (ts : UInt32) (a : List Pkt) : (stamp ts a).length = a.length := by
+  simp [stamp]
+
+/-- state after the last fragment of a run of `k` packets starting at `d`, before the frame-buffer stage -/
+def fuDone (d : Dec) (k : Nat) : Dec :=
+  { d with fragmentsSize := 0, fragments := [], fragmentNextSeqNum := d.fragmentNextSeqNum + UInt16.ofNat k }
+
+theorem fuDone_mid (d : Dec) (chunk : Bytes) (k : Nat) :
+    fuDone (fuMidState d chunk) k = fuDone d (k + 1) := by
+  simp only [fuDone, fuMidState]
+  congr 1
+  rw [ofNat_succ]; ac_rfl
+
+theorem fuEndState_eq (d : Dec) : fuEndState d = fuDone d 1 := by
+  simp [fuEndState, fuDone]
+
+/-- the fragments after the first one: all `more`, the last one hands the whole NALU over -/
+theorem fu_run_tail (c : EncCfg) (ts : UInt32) (h : UInt8) (avail : Nat) (m : Bool) (j : Nat)
+    (rest : Bytes) (d : Dec) (sq : UInt16)
+    (hsz : d.fragmentsSize = totalLen d.fragments) (hs : d.fragmentsSize ≠ 0)
+    (hq : d.fragmentNextSeqNum = sq) (hle : d.fragmentsSize + rest.length ≤ maxAU)
+    (ha : d.annexBMode = false) (hsc : findSC (d.fragments.flatten ++ rest) = none) :
+    runDec d (stamp ts (number c sq (emitFU (fuHdr h) avail m (j + 1) false rest))) =
+      ((addNALUs (fuDone d (j + 1)) [d.fragments.flatten ++ rest] ts m).1,
+       List.replicate j .more ++ [(addNALUs (fuDone d (j + 1)) [d.fragments.flatten ++ rest] ts m).2]) := by
+  induction j generalizing rest d sq with
+  | zero =>
+    simp only [emitFU, stamp_number_cons, stamp_number_nil, runDec_cons, runDec_nil]
+    rw [decode_fu_end d _ h rest rfl hs (by simp [hq]) hle hsz ha hsc, fuEndState_eq]
+    simp
+  | succ j ih =>
+    simp only [emitFU, stamp_number_cons, runDec_cons]
+    rw [decode_fu_mid d _ h (rest.take avail) rfl hs (by simp [hq])
+      (by simp only [List.length_take]; omega)]
+    have hflat : (fuMidState d (rest.take avail)).fragments.flatten ++ rest.drop avail
+        = d.fragments.flatten ++ rest := by
+      simp [fuMidState, List.append_assoc]
+    have hlen : (rest.take avail).length + (rest.drop avail).length = rest.length := by
+      rw [← List.length_append, List.take_append_drop]
+    rw [ih (rest.drop avail) (fuMidState d (rest.take avail)) (sq + 1)
+      (by simp [fuMidState, hsz]) (by simp [fuMidState]; omega) (by simp [fuMidState, hq])
+      (by simp only [fuMidState]; omega) (by simp [fuMidState, ha]) (by rw [hflat]; exact hsc)]
+    rw [hflat, fuDone_mid]
+    simp [List.replicate_succ]
+
+/-- state after a whole fragmented NALU of `k` packets starting at sequence number `sq` -/
+def afterFU (d : Dec) (sq : UInt16) (k : Nat) : Dec :=
+  { d with fragmentsSize := 0, fragments := [], fragmentNextSeqNum := sq + UInt16.ofNat k,
+           firstPacketReceived := true }
+
+/-- a fragmented NALU from ANY state: `more` on every packet but the last, which hands the NALU
+to the frame-buffer stage -/
+theorem fu_run (c : EncCfg) (ts : UInt32) (max : Nat) (n : Bytes) (m : Bool) (d : Dec) (sq : UInt16)
+    (hmax : 3 ≤ max) (hv : ValidNalu n) (hge : ¬ n.length < max) (hau : n.length ≤ maxAU)
+    (ha : d.annexBMode = false) :
+    let k := packetCount (max - 2) (n.length - 1)
+    runDec d (stamp ts (number c sq (writeFragmented max n m))) =
+      ((addNALUs (afterFU d sq k) [n] ts m).1,
+       List.replicate (k - 1) .more ++ [(addNALUs (afterFU d sq k) [n] ts m).2]) := by
+  intro k
+  obtain ⟨hne, hz, _, hsc⟩ := hv
+  obtain ⟨h, data, rfl⟩ := List.exists_cons_of_ne_nil hne
+  simp only [List.headD_cons] at hz
+  simp only [List.length_cons] at hge hau
+  have hk2 : 2 ≤ k := by
+    show 2 ≤ packetCount (max - 2) (data.length + 1 - 1)
+    -- if k ≤ 1 then (k-1)*avail = 0 < le says nothing; use the upper bound instead
+    have hup := ceilDiv_upper (data.length + 1 - 1) (max - 2) (by omega)
+    rw [← packetCount_eq] at hup
+    cases hk : packetCount (max - 2) (data.length + 1 - 1) with
+    | zero => rw [hk] at hup; omega
+    | succ k' =>
+      cases k' with
+      | zero => rw [hk] at hup; omega
+      | succ k'' => omega
+  obtain ⟨j, hj⟩ : ∃ j, k = j + 2 := ⟨k - 2, by omega⟩
+  have hk' : packetCount (max - 2) (data.length + 1 - 1) = j + 2 := hj
+  simp only [writeFragmented, show CodecH26x.h264FuHeaderLen = 2 from rfl, List.length_cons,
+    List.headD_cons, List.drop_succ_cons, List.drop_zero, hk', emitFU, stamp_number_cons, runDec_cons]
+  rw [decode_fu_start d _ h (data.take (max - 2)) hz rfl]
+  have hflat : (fuStartState d sq h (data.take (max - 2))).fragments.flatten ++ data.drop (max - 2)
+      = h :: data := by
+    simp [fuStartState]
+  have hlen : (data.take (max - 2)).length + (data.drop (max - 2)).length = data.length := by
+    rw [← List.length_append, List.take_append_drop]
+  rw [fu_run_tail c ts h (max - 2) m j (data.drop (max - 2)) (fuStartState d sq h (data.take (max - 2))) (sq + 1)
+    (by simp [fuStartState, totalLen]; omega) (by simp [fuStartState]) (by simp [fuStartState])
+    (by simp only [fuStartState]; omega) (by simp [fuStartState, ha]) (by rw [hflat]; exact hsc)]
+  rw [hflat]
+  have hdone : fuDone (fuStartState d sq h (data.take (max - 2))) (j + 1) = afterFU d sq (j + 2) := by
+    simp only [fuDone, fuStartState, afterFU]
+    congr 1
+    rw [ofNat_succ (j + 1)]; ac_rfl
+  rw [hdone, hj]
+  simp [List.replicate_succ]
+
+/-! ### one batch -/
+
+/-- what the per-batch lemma needs to know about a batch -/
+structure GoodBatch (max : Nat) (b : List Bytes) : Prop where
+  ne    : b ≠ []
+  valid : ∀ n ∈ b, ValidNalu n
+  ok    : BatchOK 1 max b
+  size  : totalLen b ≤ maxAU
+
+theorem mem_length_le_totalLen (b : List Bytes) (n : Bytes) (h : n ∈ b) : n.length ≤ totalLen b := by
+  induction b with
+  | nil => simp at h
+  | cons x xs ih =>
+    simp only [List.mem_cons] at h
+    simp only [totalLen, List.map_cons, List.sum_cons] at ih ⊢
+    rcases h with h | h
+    · subst h; omega
+    · have := ih h; omega
+
+/-- **one batch, from ANY state with `annexBMode = false`**: every packet but the last answers
+`more` without touching the frame buffer; the last one hands the batch's NALUs to the frame-buffer
+stage (`addNALUs`) with the fragments cleared. -/
+theorem batch_run (c : EncCfg) (ts : UInt32) (hc : ValidCfg c) (b : List Bytes) (m : Bool) (d : Dec)
+    (sq : UInt16) (hb : GoodBatch c.max b) (ha : d.annexBMode = false) :
+    ∃ d1, d1.fragments = [] ∧ d1.fragmentsSize = 0 ∧ fbPart d1 = fbPart d ∧ d1.annexBMode = false ∧
+      runDec d (stamp ts (number c sq (writeBatch c.max b m))) =
+        ((addNALUs d1 b ts m).1,
+         List.replicate ((writeBatch c.max b m).length - 1) .more ++ [(addNALUs d1 b ts m).2]) := by
+  obtain ⟨hne, hv, hok, hsz⟩ := hb
+  match b, hne with
+  | [n], _ =>
+    have hvn := hv n (by simp)
+    by_cases hlt : n.length < c.max
+    · refine ⟨afterWhole d, rfl, rfl, rfl, ha, ?_⟩
+      simp only [writeBatch, hlt, if_true, stamp_number_cons, stamp_number_nil, runDec_cons, runDec_nil]
+      rw [decode_single d _ n rfl hvn ha]
+      simp
+    · refine ⟨afterFU d sq (packetCount (c.max - 2) (n.length - 1)), rfl, rfl, rfl, ha, ?_⟩
+      have hlen : (writeBatch c.max [n] m).length = packetCount (c.max - 2) (n.length - 1) := by
+        simp [writeBatch, hlt, writeFragmented, emitFU_length]
+        rfl
+      rw [hlen]
+      simp only [writeBatch, hlt, if_false]
+      exact fu_run c ts c.max n m d sq hc.1 hvn hlt (by simpa using hsz) ha
+  | x :: y :: r, _ =>
+    refine ⟨afterWhole d, rfl, rfl, rfl, ha, ?_⟩
+    have hfit : lenAgg 1 (x :: y :: r) ≤ c.max := by
+      rcases hok with h | h
+      · simp at h
+      · exact h
+    have hn : ∀ n ∈ x :: y :: r, n ≠ [] ∧ n.length < 65536 := by
+      intro n hn
+      refine ⟨(hv n hn).1, ?_⟩
+      have h1 := mem_length_le_totalLen _ n hn
+      have h2 := lenAgg_ge_totalLen 1 (x :: y :: r)
+      have := hc.2
+      omega
+    simp only [writeBatch, writeAggregated, stamp_number_cons, stamp_number_nil, runDec_cons, runDec_nil]
+    rw [decode_stapa d _ (x :: y :: r) rfl (by simp) hn]
+    simp
+
+/-! ### the frame-buffer stage -/
+
+/-- the decoder holds nothing, or what it holds carries timestamp `ts` -/
+def Synced (ts : UInt32) (d : Dec) : Prop := d.frameBuffer = [] ∨ d.frameBufferTimestamp = ts
+
+/-- whatever the state was, after the frame-buffer stage it is synchronised with the packet's
+timestamp (a stale unit has been returned, an overflow has emptied the buffer) -/
+theorem addNALUs_synced (d1 : Dec) (ns : List Bytes) (ts : UInt32) (m : Bool) :
+    Synced ts (addNALUs d1 ns ts m).1 := by
+  unfold addNALUs
+  split
+  · split
+    · rename_i d2 heq
+      have : d2.frameBuffer = [] := by
+        unfold addToFrameBuffer at heq
+        split at heq
+        · simp only [Prod.mk.injEq] at heq; rw [← heq.1]; rfl
+        · dsimp only at heq
+          split at heq
+          · simp only [Prod.mk.injEq] at heq; rw [← heq.1]; rfl
+          · simp at heq
+      exact Or.inl this
+    · rename_i d2 heq
+      have : d2.frameBufferTimestamp = ts := by
+        unfold addToFrameBuffer at heq
+        split at heq
+        · simp at heq
+        · dsimp only at heq
+          split at heq
+          · simp at heq
+          · simp only [Prod.mk.injEq] at heq; rw [← heq.1]
+      exact Or.inr this
+  · split
+    · rename_i d2 heq
+      have : d2.frameBuffer = [] := by
+        unfold addToFrameBuffer at heq
+        split at heq
+        · simp only [Prod.mk.injEq] at heq; rw [← heq.1]; rfl
+        · dsimp only at heq
+          split at heq
+          · simp only [Prod.mk.injEq] at heq; rw [← heq.1]; rfl
+          · simp at heq
+      exact Or.inl this
+    · rename_i d2 heq
+      split
+      · have : d2.frameBufferTimestamp = ts := by
+          unfold addToFrameBuffer at heq
+          split at heq
+          · simp at heq
+          · dsimp only at heq
+            split at heq
+            · simp at heq
+            · simp only [Prod.mk.injEq] at heq; rw [← heq.1]
+        exact Or.inr this
+      · exact Or.inl rfl
+
+/-- a packet with the marker empties the buffer of a synchronised decoder -/
+theorem addNALUs_marker_clears (d1 : Dec) (ns : List Bytes) (ts : UInt32) (hs : Synced ts d1) :
+    (addNALUs d1 ns ts true).1.frameBuffer = [] ∧ (addNALUs d1 ns ts true).1.frameBufferLen = 0 ∧
+    (addNALUs d1 ns ts true).1.frameBufferSize = 0 := by
+  have hcond : ¬ (d1.frameBuffer.length ≠ 0 ∧ ts ≠ d1.frameBufferTimestamp) := by
+    rcases hs with hs | hs
+    · simp [hs]
+    · simp [hs]
+  unfold addNALUs
+  simp only [hcond, if_false]
+  split
+  · rename_i d2 heq
+    unfold addToFrameBuffer at heq
+    split at heq
+    · simp only [Prod.mk.injEq] at heq; rw [← heq.1]; exact ⟨rfl, rfl, rfl⟩
+    · dsimp only at heq
+      split at heq
+      · simp only [Prod.mk.injEq] at heq; rw [← heq.1]; exact ⟨rfl, rfl, rfl⟩
+      · simp at heq
+  · exact ⟨rfl, rfl, rfl⟩
+
+/-- the frame-buffer stage never touches the fragment fields or `annexBMode` -/
+theorem addNALUs_fragPart (d1 : Dec) (ns : List Bytes) (ts : UInt32) (m : Bool) :
+    fragPart (addNALUs d1 ns ts m).1 = fragPart d1 := by
+  have hadd : ∀ (d : Dec), fragPart (addToFrameBuffer d ns ts).1 = fragPart d := by
+    intro d
+    unfold addToFrameBuffer
+    split
+    · rfl
+    · dsimp only
+      split <;> rfl
+  unfold addNALUs
+  split
+  · split
+    · rename_i d2 heq
+      have := hadd d1.resetFrameBuffer; rw [heq] at this; exact this
+    · rename_i d2 heq
+      have := hadd d1.resetFrameBuffer; rw [heq] at this; exact this
+  · split
+    · rename_i d2 heq
+      have := hadd d1; rw [heq] at this; exact this
+    · rename_i d2 heq
+      have := hadd d1; rw [heq] at this
+      split
+      · exact this
+      · exact this
+
+/-- the collecting state of an intact frame: `acc` gathered so far under timestamp `ts` -/
+structure Collect (ts : UInt32) (acc : List Bytes) (d : Dec) : Prop where
+  fb    : d.frameBuffer = acc
+  len   : d.frameBufferLen = acc.length
+  size  : d.frameBufferSize = totalLen acc
+  stamp : acc ≠ [] → d.frameBufferTimestamp = ts
+
+/-- within the caps the frame-buffer stage just appends; with the marker it returns everything -/
+theorem addNALUs_collect (d1 : Dec) (ns acc : List Bytes) (ts : UInt32) (m : Bool)
+    (hcol : Collect ts acc d1) (hl : acc.length + ns.length ≤ maxNALUs)
+    (hs : totalLen acc + totalLen ns ≤ maxAU) :
+    (addNALUs d1 ns ts m).2 = (if m then .ok (acc ++ ns) else .more) ∧
+    Collect ts (if m then [] else acc ++ ns) (addNALUs d1 ns ts m).1 ∧
+    fragPart (addNALUs d1 ns ts m).1 = fragPart d1 := by
+  obtain ⟨h1, h2, h3, h4⟩ := hcol
+  have hcond : ¬ (d1.frameBuffer.length ≠ 0 ∧ ts ≠ d1.frameBufferTimestamp) := by
+    intro ⟨ha, hb⟩
+    have : acc ≠ [] := by intro h0; rw [h1, h0] at ha; simp at ha
+    exact hb (h4 this).symm
+  have hl' : ¬ (d1.frameBufferLen + ns.length > maxNALUs) := by rw [h2]; omega
+  have hs' : ¬ (d1.frameBufferSize + totalLen ns > maxAU) := by rw [h3]; omega
+  unfold addNALUs
+  simp only [hcond, if_false, addToFrameBuffer, hl', hs']
+  cases m
+  · refine ⟨by simp, ⟨by simp [h1], by simp [h2], by simp [h3], fun _ => rfl⟩, rfl⟩
+  · refine ⟨by simp [h1], ⟨rfl, rfl, rfl, fun h => absurd rfl h⟩, rfl⟩
 
 end Rtsp.Codec.H264
